@@ -79,6 +79,10 @@ class Gen:
         t_ = self.r.choice(SIMPLE)
         return ['%s%s %s;' % (ind, t_, self.fname(t_))]
 
+    def simple_fixed(self, ind):
+        t_ = self.r.choice(['u32', 'u64', 'u16', 'Guid'])
+        return ['%s%s %s;' % (ind, t_, self.fname(t_))]
+
     def body(self, ind, depth):
         out = []
         for _ in range(self.r.randint(1, 2)):
@@ -103,6 +107,16 @@ class Gen:
             if style < 0.15:
                 out.append('%sif (%s != %s) {' % (ind, var, names[0]))
                 out += self.body(ind + '    ', depth + 1)
+                out.append('%s}' % ind)
+                return out
+            if style < 0.35:
+                # a fixed-size branch against an else with a string: minimum and maximum both come from the else branch
+                out.append('%sif (%s == %s) {' % (ind, var, names[0]))
+                out += self.simple_fixed(ind + '    ')
+                out.append('%s}' % ind)
+                out.append('%selse {' % ind)
+                t_ = self.r.choice(['CString', 'SizedCString', 'CString'])
+                out.append('%s    %s %s;' % (ind, t_, self.fname(t_)))
                 out.append('%s}' % ind)
                 return out
             k = self.r.randint(1, min(3, len(names) - 1))
